@@ -18,7 +18,9 @@ FOLD_ALPHA = list("aAkKsSiI") + list("éÉßẞſKıİσςΣµμ") + [".", "\\
 QUERIES = [(d, icp, c) for d in (0, 1) for icp in (0, 1) for c in (-1, 0, 1, 2, 3)]
 
 KEYNAMES = {1: "C-r", 2: "C-s", 3: "char", 4: "Enter", 5: "C-g", 6: "Backspace", 7: "Escape",
-            8: "n", 9: "N", 10: "/", 11: "?", 12: "Up", 13: "Down"}
+            8: "n", 9: "N", 10: "/", 11: "?", 12: "Up", 13: "Down",
+            14: "Left", 15: "Right", 16: "Home", 17: "End", 18: "Delete", 19: "*", 20: "#"}
+TYPING = (3, 6, 10, 11, 14, 15, 16, 17, 18)
 
 
 # --------------------------------------------------------------------------
@@ -275,21 +277,49 @@ def oracle_buffer(case, raw):
 
 
 def oracle_document(case, res):
-    """Document.find / find_backwards with count = 1, non-empty needle."""
+    """Document.find / find_backwards: the count-th match of the leftmost
+    non-overlapping scan (forward: from the cursor resp. just after it;
+    backward: from the cursor towards the start, matches wholly before it)."""
     _, t_s, cur, sub_s, ic, count = case
     t, sub = unS(t_s), unS(sub_s)
-    if count != 1 or not sub:
-        return None
+    L = len(sub)
+    step = max(1, L)
     ps = occs(ic, sub, t)
     for k, (lo, name) in enumerate(((cur + 1, "find"), (cur, "find(include_current_position)"))):
-        ahead = [p for p in ps if p >= lo]
-        want = [ahead[0] - cur] if ahead else []
+        want = []
+        if count >= 1:
+            n, p = 0, None
+            while True:
+                ahead = [q for q in ps if q >= lo]
+                if not ahead:
+                    p = None
+                    break
+                p = ahead[0]
+                n += 1
+                if n == count:
+                    break
+                lo = p + step
+            want = [] if p is None else [p - cur]
         if res[k] != want:
-            return ("Document.%s: not the nearest occurrence after the cursor" % name, {"family": "doc-find"})
-    before = [p for p in ps if p + len(sub) <= cur]
-    want = [before[-1] - cur] if before else []
+            return ("Document.%s(count=%d): not the count-th non-overlapping occurrence after the cursor" % (name, count),
+                    {"family": "doc-find", "count": count if count <= 1 else 2})
+    want = []
+    if count >= 1:
+        hi, n, p = cur, 0, None
+        while True:
+            before = [q for q in ps if q + L <= hi]
+            if not before:
+                p = None
+                break
+            p = before[-1]
+            n += 1
+            if n == count:
+                break
+            hi = p + L - step
+        want = [] if p is None else [p - cur]
     if res[2] != want:
-        return ("Document.find_backwards: not the nearest occurrence wholly before the cursor", {"family": "doc-find-backwards"})
+        return ("Document.find_backwards(count=%d): not the count-th non-overlapping occurrence wholly before the cursor" % count,
+                {"family": "doc-find-backwards", "count": count if count <= 1 else 2})
     return None
 
 
@@ -354,7 +384,8 @@ class Sess:
         ss = self.ctrl.search_state
         b = self.buf
         return [b.working_index, b.cursor_position, [S(x) for x in b._working_lines],
-                S(self.s.search_buffer.text), 1 if self.app.layout.is_searching else 0,
+                S(self.s.search_buffer.text), self.s.search_buffer.cursor_position,
+                1 if self.app.layout.is_searching else 0,
                 S(ss.text), 0 if ss.direction == SearchDirection.FORWARD else 1,
                 S(d.text), d.cursor_position]
 
@@ -389,6 +420,12 @@ class Sess:
             seq = [(Keys.Up, "")]
         elif code == 13:
             seq = [(Keys.Down, "")]
+        elif code in (14, 15, 16, 17, 18):
+            kk = {14: Keys.Left, 15: Keys.Right, 16: Keys.Home, 17: Keys.End, 18: Keys.Delete}[code]
+            seq = [(kk, "")]
+        elif code in (19, 20):
+            ch = "*" if code == 19 else "#"
+            seq = ([(str(k[1]), str(k[1]))] if k[1] != 1 else []) + [(ch, ch)]
         else:
             raise ValueError(k)
         for key, data in seq:
@@ -401,13 +438,13 @@ def enabled(vi, searching, k):
     generator only emits these)."""
     c = k[0]
     if searching:
-        if c in (8, 9):
+        if c in (8, 9, 19, 20):
             return False
         if vi and c in (7, 12, 13):
             return False
         return True
     if vi:
-        return c in (8, 9, 10, 11)
+        return c in (8, 9, 10, 11, 19, 20)
     return c in (1, 2, 3, 6, 10, 11)
 
 
@@ -421,9 +458,13 @@ def impl_session_case(sess, case, patience=5):
         sess.reset(wl, wi, cur)
         prev = sess.observe()
         for k in keys:
-            if not enabled(mode, prev[4], k):
+            if not enabled(mode, prev[5], k):
                 out.append(-2)
                 break
+            if k[0] in (19, 20):
+                # the word under the cursor is an input of the model (C02 models
+                # Document.get_word_under_cursor); it is read off the real document
+                k[2:] = [S(sess.buf.document.get_word_under_cursor())]
             try:
                 with_watchdog(lambda: sess.press(k), patience)
                 obs = sess.observe()
@@ -447,13 +488,13 @@ def oracle_session(case, trace):
         kn = KEYNAMES[k[0]]
         if isinstance(obs, str):
             return ("key %s: %s" % (kn, obs), {"key": kn, "family": "raise"})
-        pw, pc, pwl, pfield, psearch, psst, psd, ppt, ppc = prev
-        w, c, wl_, field, search, sst, sd, pt, pcur = obs
+        pw, pc, pwl, pfield, pfcur, psearch, psst, psd, ppt, ppc = prev
+        w, c, wl_, field, fcur_, search, sst, sd, pt, pcur = obs
         main_same = (w, c, wl_) == (pw, pc, pwl)
         lines = [unS(x) for x in pwl]
         if wl_ != pwl and psearch:
             return ("key %s while searching changed the text of the main buffer" % kn, {"key": kn, "family": "text"})
-        if psearch and k[0] in (3, 6, 10, 11) and not (mode and k[0] == 6 and not pfield):
+        if psearch and k[0] in TYPING and not (mode and k[0] == 6 and not pfield):
             # typing in the search field
             if not main_same:
                 return ("typing %s in the search field moved the real cursor or changed the text" % kn,
@@ -472,12 +513,22 @@ def oracle_session(case, trace):
                 fam = "accept-empty-field-remembered-text" if not pfield else "preview"
                 return ("accepting the search moved to entry %d cursor %d but the display before the key showed %r cursor %d" % (
                     w, c, unS(ppt), ppc), {"key": "accept", "family": fam})
-        elif (psearch and k[0] in (1, 2, 12, 13)) or (not psearch and k[0] in (8, 9)):
+        elif psearch and k[0] == 5:
+            # abort: the key itself must not move anything (modulo Vi's end-of-line rule)
+            if wl_ != pwl or w != pw or c != fix_start(mode, unS(pwl[pw]), pc):
+                return ("aborting the search moved the real cursor or changed the text", {"key": kn, "family": "abort"})
+        elif (psearch and k[0] in (1, 2, 12, 13)) or (not psearch and k[0] in (8, 9, 19, 20)):
             if psearch:
                 d = 1 if k[0] in (1, 12) else 0
                 needle, count = unS(pfield), 1
                 if d != psd and main_same:
                     continue        # a direction change alone only turns the search around
+            elif k[0] in (19, 20):
+                d = 0 if k[0] == 19 else 1
+                needle, count = unS(k[2]), k[1]
+                if unS(sst) != needle or sd != d:
+                    return ("%s did not store the word under the cursor / its direction in the search state" % kn,
+                            {"key": kn, "family": "star-state"})
             else:
                 d = psd if k[0] == 8 else 1 - psd
                 needle, count = unS(psst), k[1]
@@ -607,15 +658,18 @@ def rand_keys(rng, vi, n, chars):
     for _ in range(n):
         while True:
             if searching:
-                k = rng.choice([[1], [2], [1], [3], [3], [3], [4], [4], [5], [6], [7], [12], [13], [10], [11]])
+                k = rng.choice([[1], [2], [1], [3], [3], [3], [4], [4], [5], [6], [7], [12], [13], [10], [11],
+                                [14], [14], [15], [16], [17], [18]])
             elif vi:
-                k = rng.choice([[8], [9], [8], [10], [11], [10], [11]])
+                k = rng.choice([[8], [9], [8], [10], [11], [10], [11], [19], [20]])
             else:
                 k = rng.choice([[1], [2], [1], [3], [6]])
             if k[0] == 3:
                 k = [3, ord(rng.choice(chars))]
             if k[0] in (8, 9):
                 k = [k[0], rng.choice([1, 1, 1, 2, 3])]
+            if k[0] in (19, 20):
+                k = [k[0], rng.choice([1, 1, 1, 2]), []]
             if enabled(vi, searching, k):
                 break
         keys.append(k)
@@ -627,8 +681,10 @@ def rand_keys(rng, vi, n, chars):
             searching = False
         elif c in (3, 10, 11):
             flen += 1
-        elif c == 6:
-            if vi and flen == 0:
+        elif c in (6, 18):
+            # (the generator only needs to know whether the field can be empty:
+            # it assumes every Backspace/Delete removed a character)
+            if c == 6 and vi and flen == 0:
                 searching = False
             flen = max(0, flen - 1)
     return keys
@@ -655,7 +711,7 @@ def gen_session_cases(chk, dist):
         dist[kind] = dist.get(kind, 0) + 1
 
     # exhaustive emacs key sequences over a small key set
-    eks = [[1], [2], [3, 97], [4], [5], [6]]
+    eks = [[1], [2], [3, 97], [4], [5], [6], [14]]
     maxlen = 6 if thorough else 5
     hs = SESSION_HISTORIES[:3] if thorough else SESSION_HISTORIES[:2]
     for h in hs:
@@ -902,15 +958,16 @@ def main(tier):
         "three kinds of cases, each run on the real objects and on the Coq model (extracted + vm_compute sample): "
         "(1) a Buffer with given working lines/index/cursor and a needle: _search, apply_search, get_search_position for both "
         "directions x include_current_position x counts -1..3, and document_for_search for both directions (20 queries + 2 per case); "
-        "(2) Document.find / find_backwards incl. count; (3) key sequences (C-r C-s typing Enter C-g Backspace Escape Up Down, "
-        "Vi / ? n N with counts) fed to the KeyProcessor of a real PromptSession, state and displayed document observed after every key. "
+        "(2) Document.find / find_backwards incl. count; (3) key sequences (C-r C-s typing Enter C-g Backspace Escape Up Down Left Right Home End Delete, "
+        "Vi / ? n N * # with counts) fed to the KeyProcessor of a real PromptSession, state and displayed document observed after every key. "
         "Non-trivial = some search moved the position. Exhaustive strata are sampled in quick and complete in thorough "
         "(one entry of length <= 3 over %r x every cursor x %d needles x both case modes); distinct by hash of the whole case" % (ALPHA, len(needles())))
     chk.assumptions += [
         "re.finditer(re.escape(s), t, flags) = leftmost non-overlapping literal occurrences, compared per character; "
         "re.IGNORECASE = the per-character relation ceq (a Section variable in every theorem; the executable model uses the table "
         "regenerated from CPython's re for ASCII letters + 19 irregular cased letters, gen/gen_t_c16.py)",
-        "the search field is modelled as its text with the cursor at its end (typing appends, Backspace removes the last character)",
+        "the search field is modelled as a buffer of its own (text + cursor: insert, Backspace, Delete, Left, Right, Home, End); its history (Up/Down in a Vi search field) is outside",
+        "Vi * and #: the word under the cursor (Document.get_word_under_cursor, C02) is read off the real document and handed to the model as part of the key",
         "selection, events, validation, completion state and the search buffer's own history are outside the model",
         "sessions run with the KeyProcessor driven directly inside set_app under a running asyncio loop; "
         "working lines are set directly on the Buffer (history loading is checked separately through load_history_if_not_yet_loaded)"]
@@ -945,8 +1002,8 @@ def replay(data):
         print(describe(case, out, "-"))
         for prev, k, obs in tr[0]:
             print("  %-9s -> %r" % (KEYNAMES[k[0]] + (repr(chr(k[1])) if k[0] == 3 else ""), obs if isinstance(obs, str) else
-                                    {"index": obs[0], "cursor": obs[1], "text": unS(obs[2][obs[0]]), "field": unS(obs[3]), "searching": obs[4],
-                                     "state_text": unS(obs[5]), "state_dir": obs[6], "shown": (unS(obs[7]), obs[8])}))
+                                    {"index": obs[0], "cursor": obs[1], "text": unS(obs[2][obs[0]]), "field": unS(obs[3]), "field_cursor": obs[4], "searching": obs[5],
+                                     "state_text": unS(obs[6]), "state_dir": obs[7], "shown": (unS(obs[8]), obs[9])}))
         bad = oracle_session(case, tr[0])
     else:
         print("malformed case", case)
